@@ -209,4 +209,81 @@ func sortedU64(m map[uint64]struct{}) []uint64 {
 
 func fmtOps(ops []string) string { return strings.Join(ops, "; ") }
 
+
+
+type verifCarrier struct {
+	Key string
+	Seq uint64
+}
+
+// verifCommittedFromLog extracts, from the H1 log, the sequence numbers carried by committed
+// document versions (sequence + unused_sequences of the _sync xattr) and principal versions.
+func verifCommittedFromLog(log []*base.VerifOp, mk *base.MetadataKeys) (carried map[uint64][]string, listedUnused map[uint64][]string, perDoc map[string][]uint64) {
+	carried, listedUnused, perDoc = map[uint64][]string{}, map[uint64][]string{}, map[string][]uint64{}
+	// the log is appended after each operation returns, so its order is not the commit order of
+	// concurrent writers: order the committed versions of one key by the CAS the store gave them
+	type ver struct{ cas, seq uint64 }
+	vers := map[string][]ver{}
+	for _, op := range log {
+		if !op.Applied {
+			continue
+		}
+		switch op.Kind {
+		case "WriteUpdateWithXattrs", "WriteWithXattrs", "WriteTombstoneWithXattrs", "WriteResurrectionWithXattrs", "UpdateXattrs", "SetXattrs":
+			if m, ok := verifParseSync(op.Xattrs[base.SyncXattrName]); ok && m.Sequence > 0 {
+				carried[m.Sequence] = append(carried[m.Sequence], op.Key)
+				vers[op.DS+"/"+op.Key] = append(vers[op.DS+"/"+op.Key], ver{op.CasOut, m.Sequence})
+				for _, u := range m.UnusedSequences {
+					listedUnused[u] = append(listedUnused[u], op.Key)
+				}
+			}
+		case "WriteCas", "Set", "Add", "Update":
+			if strings.Contains(op.Key, ":user:") || strings.Contains(op.Key, ":role:") || strings.HasPrefix(op.Key, "_sync:user:") || strings.HasPrefix(op.Key, "_sync:role:") {
+				var p struct {
+					Sequence uint64 `json:"sequence"`
+				}
+				if json.Unmarshal(op.Value, &p) == nil && p.Sequence > 0 {
+					carried[p.Sequence] = append(carried[p.Sequence], op.Key)
+					vers[op.DS+"/"+op.Key] = append(vers[op.DS+"/"+op.Key], ver{op.CasOut, p.Sequence})
+				}
+			}
+		}
+	}
+	for k, vs := range vers {
+		ordered := true
+		for _, v := range vs {
+			if v.cas == 0 {
+				ordered = false // no CAS reported for some version: commit order unknown, skip the order check for this key
+			}
+		}
+		if !ordered {
+			continue
+		}
+		sort.SliceStable(vs, func(i, j int) bool { return vs[i].cas < vs[j].cas })
+		for _, v := range vs {
+			perDoc[k] = append(perDoc[k], v.seq)
+		}
+	}
+	return
+}
+
+
+func verifErrClass(err error) string {
+	s := err.Error()
+	switch {
+	case strings.Contains(s, "injected"):
+		return "injected-error"
+	case base.IsTimeoutError(err) || strings.Contains(s, "imeout"):
+		return "timeout"
+	case strings.Contains(s, "409") || strings.Contains(s, "conflict") || strings.Contains(s, "Conflict"):
+		return "conflict"
+	case strings.Contains(s, "403") || strings.Contains(s, "rejected") || strings.Contains(s, "forbidden"):
+		return "rejected"
+	case base.IsCasMismatch(err):
+		return "cas"
+	}
+	return "other"
+}
+
+
 var _ = fmt.Sprintf
